@@ -5,11 +5,13 @@ package c04
 import (
 	"bufio"
 	"bytes"
+	"crypto/tls"
 	"encoding/json"
 	"fmt"
 	"io"
 	"net"
 	"net/http"
+	"net/http/httptest"
 	"net/url"
 	"strings"
 	"sync"
@@ -110,12 +112,52 @@ type Case struct {
 	// TalkPeriodMs: the pause between the sender's bytes (0 = 500), well below TimeoutMs.
 	Talk         string `json:"talk,omitempty"`
 	TalkPeriodMs int    `json:"talk_period_ms,omitempty"`
+	// Shape (shaped listener): the listener has a traffic shape whose url_regex matches the
+	// ordinary exchanges before the CONNECT (not the CONNECT: its bytes are nobody's response).
+	Shape *ShapeCfg `json:"shape,omitempty"`
+	// ClientLeg / TargetLeg: the transport between client and proxy (the proxy's listener) and
+	// between proxy and target (what the dial function returns; TLS on the direct route only):
+	// "" plain TCP, "tls12" / "tls13" (a TLS listener / a dialled *tls.Conn: still a blind tunnel,
+	// nothing is intercepted), "eof-with-data" (plain TCP behind a net.Conn whose Read returns the
+	// last bytes together with io.EOF when the end follows them at once, as the io.Reader contract
+	// allows and *tls.Conn does up to TLS 1.2).
+	ClientLeg string `json:"client_leg,omitempty"`
+	TargetLeg string `json:"target_leg,omitempty"`
+	// TailC / TailT: this many of the last bytes of the client's / target's stream are written in
+	// one segment with what ends that direction (FIN, close_notify): "finishes sending and closes"
+	// at once. Applies where that end's close is observed by the peer (see runOnce).
+	TailC int `json:"tail_c,omitempty"`
+	TailT int `json:"tail_t,omitempty"`
+}
+
+// ShapeCfg is one action of a traffic shape for the URLs of the exchanges before the CONNECT,
+// at a byte offset of a response body: beyond the end of those responses (10 bytes) in most
+// cases, so that it is still pending when the CONNECT arrives on the same connection.
+type ShapeCfg struct {
+	Kind  string `json:"kind"`  // close | halt | throttle
+	At    int    `json:"at"`    // byte offset of the action
+	Count int    `json:"count"` // 1 or -1 (close, halt)
+}
+
+func (sc ShapeCfg) json() string {
+	switch sc.Kind {
+	case "close":
+		return fmt.Sprintf(`{"trafficshape":{"shapes":[{"url_regex":"test/p[0-9]","close_connections":[{"byte":%d,"count":%d}]}]}}`, sc.At, sc.Count)
+	case "halt":
+		// (inside an ordinary response a short one; pending for longer than any wait of a case)
+		dur := 60000
+		if sc.At < 10 {
+			dur = 30
+		}
+		return fmt.Sprintf(`{"trafficshape":{"shapes":[{"url_regex":"test/p[0-9]","halts":[{"byte":%d,"duration":%d,"count":%d}]}]}}`, sc.At, dur, sc.Count)
+	}
+	return fmt.Sprintf(`{"trafficshape":{"shapes":[{"url_regex":"test/p[0-9]","throttles":[{"bytes":"%d-","bandwidth":100}]}]}}`, sc.At)
 }
 
 // runTwin drives the second tunnel and reports what it saw.
-func runTwin(proxyAddr string, tl net.Listener, size int, seed uint64, T time.Duration) (v kit.Verdict) {
+func runTwin(dialProxy func() (net.Conn, error), tl net.Listener, size int, seed uint64, T time.Duration) (v kit.Verdict) {
 	up, down := kit.Bytes(seed, size), kit.Bytes(seed+1, size)
-	conn, err := net.DialTimeout("tcp", proxyAddr, 5*time.Second)
+	conn, err := dialProxy()
 	if err != nil {
 		return kit.Failf("C04/harness/dial", "%v", err)
 	}
@@ -285,12 +327,6 @@ func waitDone(c *collector, bound time.Duration) bool {
 	}
 }
 
-func halfClose(c net.Conn) {
-	if t, ok := c.(*net.TCPConn); ok {
-		t.CloseWrite()
-	}
-}
-
 // downstream is a minimal well-behaved CONNECT proxy.
 func downstream(l net.Listener, targetAddr string, coalesce int, extraHead string, refuse, keepOpen bool, routes ...func(host string) string) {
 	for {
@@ -428,16 +464,29 @@ func runOnce(c Case, T time.Duration) (v kit.Verdict) {
 	}
 	go func() {
 		for {
-			tc, err := tl.Accept()
+			raw, err := tl.Accept()
 			if err != nil {
 				return
 			}
-			if targetEarly > 0 {
-				// a target that talks first: its first bytes can reach the
-				// downstream proxy before that has answered the CONNECT
-				tc.Write(t2c[:targetEarly])
-			}
-			accepted <- tc
+			go func() {
+				var tc net.Conn = &corkConn{Conn: raw}
+				if isTLSLeg(c.TargetLeg) {
+					ts := tls.Server(tc, legConfig(c.TargetLeg, ""))
+					ts.SetDeadline(time.Now().Add(10 * time.Second))
+					if err := ts.Handshake(); err != nil {
+						raw.Close()
+						return
+					}
+					ts.SetDeadline(time.Time{})
+					tc = ts
+				}
+				if targetEarly > 0 {
+					// a target that talks first: its first bytes can reach the
+					// downstream proxy before that has answered the CONNECT
+					tc.Write(t2c[:targetEarly])
+				}
+				accepted <- tc
+			}()
 		}
 	}()
 	dl, err := netkit.Listen()
@@ -520,6 +569,33 @@ func runOnce(c Case, T time.Duration) (v kit.Verdict) {
 			return inner(network, addr)
 		}
 	}
+	switch {
+	case isTLSLeg(c.TargetLeg):
+		inner := dial
+		dial = func(network, addr string) (net.Conn, error) {
+			conn, err := inner(network, addr)
+			if err != nil || !strings.HasPrefix(addr, "target.test") {
+				return conn, err
+			}
+			tconn := tls.Client(conn, legConfig(c.TargetLeg, "target.test"))
+			tconn.SetDeadline(time.Now().Add(10 * time.Second))
+			if err := tconn.Handshake(); err != nil {
+				conn.Close()
+				return nil, err
+			}
+			tconn.SetDeadline(time.Time{})
+			return tconn, nil
+		}
+	case c.TargetLeg == "eof-with-data":
+		inner := dial
+		dial = func(network, addr string) (net.Conn, error) {
+			conn, err := inner(network, addr)
+			if t, ok := conn.(*net.TCPConn); ok && err == nil && (strings.HasPrefix(addr, "target.test") || strings.HasPrefix(addr, "downstream.test")) {
+				return &eofTailConn{TCPConn: t}, nil
+			}
+			return conn, err
+		}
+	}
 	p.SetDial(dial)
 	if c.PreludeLocal != "" {
 		// requests for local.test are answered by the proxy itself: no round trip
@@ -544,9 +620,51 @@ func runOnce(c Case, T time.Duration) (v kit.Verdict) {
 	}
 	var wrap func(net.Listener) net.Listener
 	if c.Shaped {
-		wrap = func(l net.Listener) net.Listener { return trafficshape.NewListener(l) }
+		shapeErr := ""
+		wrap = func(l net.Listener) net.Listener {
+			tsl := trafficshape.NewListener(l)
+			if c.Shape != nil {
+				// configured, as over the API, before any client connects
+				rw := httptest.NewRecorder()
+				trafficshape.NewHandler(tsl).ServeHTTP(rw, httptest.NewRequest("POST", "http://martian.proxy/shape-traffic", strings.NewReader(c.Shape.json())))
+				if rw.Code != 200 {
+					shapeErr = fmt.Sprintf("%d %s", rw.Code, rw.Body.String())
+				}
+			}
+			return tsl
+		}
+		defer func() {
+			if shapeErr != "" {
+				v = kit.Failf("C04/harness/shape-config", "the shape configuration was rejected: %s", shapeErr)
+			}
+		}()
+	}
+	switch {
+	case c.Shaped:
+	case isTLSLeg(c.ClientLeg):
+		wrap = func(l net.Listener) net.Listener { return tls.NewListener(l, legConfig(c.ClientLeg, "")) }
+	case c.ClientLeg == "eof-with-data":
+		wrap = func(l net.Listener) net.Listener { return eofTailListener{l} }
 	}
 	pr := netkit.Start(p, wrap)
+	dialProxy := func() (net.Conn, error) {
+		raw, err := net.DialTimeout("tcp", pr.Addr, 5*time.Second)
+		if err != nil {
+			return nil, err
+		}
+		var conn net.Conn = &corkConn{Conn: raw}
+		if isTLSLeg(c.ClientLeg) && !c.Shaped {
+			tconn := tls.Client(conn, legConfig(c.ClientLeg, "proxy.test"))
+			tconn.SetDeadline(time.Now().Add(10 * time.Second))
+			if err := tconn.Handshake(); err != nil {
+				raw.Close()
+				return nil, err
+			}
+			tconn.SetDeadline(time.Time{})
+			conn = tconn
+		}
+		return conn, nil
+	}
 	stopped := false
 	defer func() {
 		if !stopped {
@@ -570,7 +688,7 @@ func runOnce(c Case, T time.Duration) (v kit.Verdict) {
 	}
 	startTwin := func() {
 		if c.Twin {
-			go func() { twinDone <- runTwin(pr.Addr, twinL, c.TwinSize, c.TwinSeed, T) }()
+			go func() { twinDone <- runTwin(dialProxy, twinL, c.TwinSize, c.TwinSeed, T) }()
 		}
 	}
 	twinStarted := false
@@ -582,7 +700,7 @@ func runOnce(c Case, T time.Duration) (v kit.Verdict) {
 			}
 		}()
 	}
-	conn, err := net.DialTimeout("tcp", pr.Addr, 5*time.Second)
+	conn, err := dialProxy()
 	if err != nil {
 		return kit.Failf("C04/harness/dial", "%v", err)
 	}
@@ -609,6 +727,12 @@ func runOnce(c Case, T time.Duration) (v kit.Verdict) {
 		var pbody []byte
 		if err == nil {
 			pbody, err = io.ReadAll(pres.Body)
+		}
+		if (err != nil || pres.StatusCode != 200 || string(pbody) != "PRELUDE-"+id) && c.Shaped && c.Shape != nil {
+			// what a traffic shape does to a response that matches it is not this
+			// property's business (an action inside it may end the connection): the
+			// case is over
+			return nil
 		}
 		if err != nil || pres.StatusCode != 200 || string(pbody) != "PRELUDE-"+id {
 			class := "exchange-before-connect-failed"
@@ -815,14 +939,41 @@ func runOnce(c Case, T time.Duration) (v kit.Verdict) {
 	}
 	var wg sync.WaitGroup
 	var werrC, werrT error
-	cFirst, tFirst := len(c2t), len(t2c)
+	// the tails: the last bytes of a stream that leave together with what ends its
+	// direction - where the peer is still there to observe that end
+	cEnd, tEnd := len(c2t), len(t2c)
+	switch c.Closer {
+	case "client-half-early", "client-half", "target-half-early", "target-half":
+		cEnd, tEnd = len(c2t)-c.TailC, len(t2c)-c.TailT
+	case "client-full":
+		cEnd = len(c2t) - c.TailC
+	case "target-full":
+		tEnd = len(t2c) - c.TailT
+	}
+	if c.OpaqueDial && strings.HasPrefix(c.Closer, "client-half") {
+		// without half-close on the target connection the end of the client's stream is
+		// passed on by closing it: the target cannot send anything afterwards
+		tEnd = len(t2c)
+	}
+	if cEnd < early {
+		cEnd = early
+	}
+	if tEnd < targetEarly {
+		tEnd = targetEarly
+	}
+	cFirst, tFirst := cEnd, tEnd
 	if holdC {
-		cFirst = early + (len(c2t)-early)/2
+		cFirst = early + (cEnd-early)/2
 	}
 	if holdT {
-		tFirst = len(t2c) / 2
+		tFirst = tEnd / 2
 		if tFirst < targetEarly {
 			tFirst = targetEarly
+		}
+	}
+	tailFailed := func(who string, err error) {
+		if err != nil {
+			v.Addf("C04/transfer/"+sh+"/write-failed", "%s writing the last bytes of its stream together with its close: %v", who, err)
 		}
 	}
 	wg.Add(2)
@@ -883,43 +1034,43 @@ func runOnce(c Case, T time.Duration) (v kit.Verdict) {
 	}
 	switch c.Closer {
 	case "client-half-early", "client-half":
-		halfClose(conn)
+		tailFailed("client", endWithTail(conn, c2t[cEnd:], true))
 		if !expectEOF(targetIn, "target", "client-half-close") {
 			return v
 		}
 		if holdT {
-			if err := writeStream(tc, c.T2C, t2c, tFirst, len(t2c)); err != nil {
+			if err := writeStream(tc, c.T2C, t2c, tFirst, tEnd); err != nil {
 				v.Addf("C04/transfer/"+sh+"/write-after-peer-half-close-failed", "target writing the rest of its stream after the client's half-close: %v", err)
 				return v
 			}
 		}
-		tc.Close()
+		tailFailed("target", endWithTail(tc, t2c[tEnd:], false))
 		if !expectEOF(clientIn, "client", "target-close") {
 			return v
 		}
 	case "target-half-early", "target-half":
-		halfClose(tc)
+		tailFailed("target", endWithTail(tc, t2c[tEnd:], true))
 		if !expectEOF(clientIn, "client", "target-half-close") {
 			return v
 		}
 		if holdC {
-			if err := writeStream(conn, c.C2T, c2t, cFirst, len(c2t)); err != nil {
+			if err := writeStream(conn, c.C2T, c2t, cFirst, cEnd); err != nil {
 				v.Addf("C04/transfer/"+sh+"/write-after-peer-half-close-failed", "client writing the rest of its stream after the target's half-close: %v", err)
 				return v
 			}
 		}
-		conn.(*net.TCPConn).Close()
+		tailFailed("client", endWithTail(conn, c2t[cEnd:], false))
 		if !expectEOF(targetIn, "target", "client-close") {
 			return v
 		}
 	case "client-full":
-		conn.Close()
+		tailFailed("client", endWithTail(conn, c2t[cEnd:], false))
 		if !expectEOF(targetIn, "target", "client-close") {
 			return v
 		}
 		tc.Close()
 	case "target-full":
-		tc.Close()
+		tailFailed("target", endWithTail(tc, t2c[tEnd:], false))
 		if !expectEOF(clientIn, "client", "target-close") {
 			return v
 		}
@@ -927,13 +1078,13 @@ func runOnce(c Case, T time.Duration) (v kit.Verdict) {
 	case "target-rst":
 		// the target goes away abortively: the client must still learn that the
 		// stream is over (EOF or reset), not wait for the idle timeout
-		netkit.Reset(tc)
+		reset(tc)
 		if !expectEOF(clientIn, "client", "target-reset") {
 			return v
 		}
 		conn.Close()
 	case "client-rst":
-		netkit.Reset(conn)
+		reset(conn)
 		if !expectEOF(targetIn, "target", "client-reset") {
 			return v
 		}
@@ -1021,6 +1172,13 @@ func genCase(t *rapid.T) Case {
 		c.DownHead = rapid.SampledFrom([]string{"", "", "", "te-chunked", "content-length"}).Draw(t, "down_head")
 	}
 	c.Shaped = rapid.IntRange(0, 3).Draw(t, "shaped") == 0
+	if c.Shaped && rapid.IntRange(0, 2).Draw(t, "shape") != 0 {
+		c.Shape = &ShapeCfg{
+			Kind:  rapid.SampledFrom([]string{"close", "halt", "throttle"}).Draw(t, "shape_kind"),
+			At:    rapid.SampledFrom([]int{64, 500, 3000, 40000, 4}).Draw(t, "shape_at"),
+			Count: rapid.SampledFrom([]int{1, -1}).Draw(t, "shape_count"),
+		}
+	}
 	if c.Route == "direct" && rapid.IntRange(0, 9).Draw(t, "unreachable") == 0 {
 		c.Unreachable = true
 		c.DialTimeout = rapid.Bool().Draw(t, "dial_timeout")
@@ -1036,7 +1194,8 @@ func genCase(t *rapid.T) Case {
 	}
 	// (the harness's downstream proxy only speaks CONNECT: on that route the exchanges
 	// before the CONNECT are all answered by the proxy itself)
-	if rapid.IntRange(0, 2).Draw(t, "prelude") == 0 {
+	// (a listener with a shape for them always sees such exchanges)
+	if rapid.IntRange(0, 2).Draw(t, "prelude") == 0 || c.Shape != nil {
 		c.Prelude = rapid.IntRange(1, 3).Draw(t, "prelude_n")
 		c.PreludeLocal = rapid.SampledFrom([]string{"", "", "all", "first", "last"}).Draw(t, "prelude_local")
 		if c.Route == "downstream" {
@@ -1055,6 +1214,34 @@ func genCase(t *rapid.T) Case {
 		c.TwinSeed = rapid.Uint64Range(1, 1<<20).Draw(t, "twin_seed")
 	}
 	c.TargetFirst = !c.Unreachable && rapid.IntRange(0, 3).Draw(t, "target_first") == 0
+	// the transport of each leg, and last bytes that leave together with the close
+	legs := []string{"", "", "", "tls12", "tls13", "eof-with-data"}
+	if !c.Shaped {
+		c.ClientLeg = rapid.SampledFrom(legs).Draw(t, "client_leg")
+		if isTLSLeg(c.ClientLeg) && c.Prelude > 0 {
+			// (requests on a TLS connection to the proxy are https requests: the
+			// exchanges before the CONNECT are those the proxy answers itself)
+			c.PreludeLocal = "all"
+		}
+	}
+	if !c.OpaqueDial && !c.Unreachable {
+		if c.Route == "direct" {
+			c.TargetLeg = rapid.SampledFrom(legs).Draw(t, "target_leg")
+		} else {
+			c.TargetLeg = rapid.SampledFrom([]string{"", "", "eof-with-data"}).Draw(t, "target_leg")
+		}
+	}
+	if rapid.Bool().Draw(t, "tails") {
+		tails := []int{0, 1, 100, 4000, 16384, 20000}
+		c.TailC = rapid.SampledFrom(tails).Draw(t, "tail_c")
+		c.TailT = rapid.SampledFrom(tails).Draw(t, "tail_t")
+		if c.TailC > c.C2T.Size {
+			c.TailC = c.C2T.Size
+		}
+		if c.TailT > c.T2C.Size {
+			c.TailT = c.T2C.Size
+		}
+	}
 	switch {
 	case c.Unreachable:
 	case rare(t, "idle_past_timeout", 6):
@@ -1105,6 +1292,12 @@ func classes(c Case) []string {
 	if c.Twin {
 		out = append(out, "concurrent-second-tunnel")
 	}
+	if c.Shaped && c.Shape != nil && c.Prelude > 0 {
+		out = append(out, "shaped-exchange-before-connect-"+c.Shape.Kind)
+		if c.Shape.At > 10 {
+			out = append(out, "shape-action-pending-at-connect")
+		}
+	}
 	if c.Shaped {
 		out = append(out, "traffic-shaped-listener")
 		if c.Twin && c.TwinWhileOpen {
@@ -1134,6 +1327,18 @@ func classes(c Case) []string {
 	}
 	if c.IdleMs > 0 && c.TimeoutMs > 0 && c.IdleMs > c.TimeoutMs {
 		out = append(out, "idle-past-proxy-timeout-then-traffic")
+	}
+	if c.ClientLeg != "" {
+		out = append(out, "client-leg-"+c.ClientLeg)
+	}
+	if c.TargetLeg != "" {
+		out = append(out, "target-leg-"+c.TargetLeg)
+	}
+	if c.TailC > 0 || c.TailT > 0 {
+		out = append(out, "last-bytes-leave-with-the-close")
+		if c.ClientLeg == "tls12" || c.TargetLeg == "tls12" || c.ClientLeg == "eof-with-data" || c.TargetLeg == "eof-with-data" {
+			out = append(out, "last-bytes-with-close+reader-may-return-data-with-eof")
+		}
 	}
 	if c.TargetFirst {
 		out = append(out, "target-speaks-first")
